@@ -18,6 +18,7 @@ theorem tie_h_defs_client_UpdateDAG : Extracted.Defs.h_defs_client_UpdateDAG = C
 theorem tie_h_defs_client_DeleteDAG : Extracted.Defs.h_defs_client_DeleteDAG = Canon.Defs.h_defs_client_DeleteDAG := by decide +kernel
 theorem tie_h_rest_defs_persistence_local_dag_store_go : Extracted.Defs.h_rest_defs_persistence_local_dag_store_go = Canon.Defs.h_rest_defs_persistence_local_dag_store_go := by decide +kernel
 theorem tie_h_rest_defs_client_client_go : Extracted.Defs.h_rest_defs_client_client_go = Canon.Defs.h_rest_defs_client_client_go := by decide +kernel
+theorem tie_h_rest_defs_frontend_dag_handler_go : Extracted.Defs.h_rest_defs_frontend_dag_handler_go = Canon.Defs.h_rest_defs_frontend_dag_handler_go := by decide +kernel
 
 #print axioms tie_h_defs_dagStoreImpl_UpdateSpec
 #print axioms tie_h_defs_dagStoreImpl_Create
@@ -34,5 +35,6 @@ theorem tie_h_rest_defs_client_client_go : Extracted.Defs.h_rest_defs_client_cli
 #print axioms tie_h_defs_client_DeleteDAG
 #print axioms tie_h_rest_defs_persistence_local_dag_store_go
 #print axioms tie_h_rest_defs_client_client_go
+#print axioms tie_h_rest_defs_frontend_dag_handler_go
 
 end BdModel.Tie.Defs
